@@ -21,7 +21,7 @@ POOL = [
     "y ~ x", "y ~ f", "y ~ 0 + f:g + x", "y ~ f*g + poly(x, 2)", "yc ~ x", "yc[v] ~ f + x", "prop(s, n) ~ x + f", "prop(s, 9) ~ x",
     "y ~ 1", "x + f", "y ~ x + (1|g)", "y ~ (x|g)", "y ~ (f|g)", "y ~ (0 + f|g) + (1|h)", "y ~ (x|g:h) + (0 + f:x|h)",
     "y ~ (x|g) + (x|h)", "y ~ x + (bs(x, df=3)|g)", "y ~ f + (f|g) + (x|h)", "y ~ 0 + C(k) + (1|g/h)", "y ~ (1|h) + (f*x|g)",
-    "yc ~ 0 + x + (0 + x|g)", "(x|g)", "y ~ one + x + f", "y ~ x + one + (1|g) + (0 + x|g)", "y ~ x + offset(s) + f", "y ~ offset(2.5) + (1|g)", "y ~ C(fl) + x", "y ~ x + (1|C(fl))",  # 'one' has a single level: a term without columns
+    "yc ~ 0 + x + (0 + x|g)", "(x|g)", "y ~ one + x + f", "y ~ x + one + (1|g) + (0 + x|g)", "y ~ x + offset(s) + f", "y ~ offset(2.5) + (1|g)", "y ~ C(fl) + x", "y ~ x + (1|C(fl))", "ylong ~ x + flong", "ylong ~ 0 + x + (flong|g)",  # 'one' has a single level: a term without columns
 ]
 FRAMES = ["sub", "rev", "newg", "newh", "newgh"]
 FRAMES_T = FRAMES + ["one", "dup"]
@@ -38,6 +38,8 @@ def train():
         df["s"] = [i % 7 for i in range(n)]
         df["one"] = "only"
         df["fl"] = [[1000001.0, 1000002.0, 0.1 + 0.2, 0.3][i % 4] for i in range(n)]  # distinct levels that agree to 6 significant digits
+        df["ylong"] = [f"a rather long response level number {i % 9}" for i in range(n)]  # printed level lists longer than one line
+        df["flong"] = [f"factor level with a long name {(i * 5) % 12:02d}" for i in range(n)]
         _DF = df
     return _DF
 
@@ -56,6 +58,8 @@ def other_frame():
         df["s"] = [i % 5 for i in range(n)]
         df["one"] = "only"
         df["fl"] = [[1000001.0, 1000002.0, 0.1 + 0.2, 0.3, 7.5][i % 5] for i in range(n)]
+        df["ylong"] = [f"a rather long response level number {i % 11}" for i in range(n)]
+        df["flong"] = [f"factor level with a long name {(i * 5) % 14:02d}" for i in range(n)]
         _OTHER = df
     return _OTHER
 
@@ -271,6 +275,22 @@ def check_case(case, acc):
                             want = tuple(dict.fromkeys(f_ for f_ in facs if any(c in f_.split(":") for c in expf)))
                             if tuple(got) != want:
                                 problems.append(("factors-with-new-levels", f"{what}: factors_with_new_levels {got}, expected {want}"))
+                        # the caller changes its frame in place (other values, one row fewer) and evaluates it again from the same parent
+                        if dep == 1 and kind != "response":
+                            nd2 = new_frame(fk)
+                            try:
+                                obj.evaluate_new_data(nd2)
+                                nd2.drop(index=nd2.index[-1], inplace=True)
+                                if "x" in nd2:
+                                    nd2["x"] = nd2["x"] * 2 + 1
+                                acc.calls += 2
+                                again = obj.evaluate_new_data(nd2)
+                                fresh = obj.evaluate_new_data(nd2.copy())
+                                check_object(kind, again, len(nd2), what + " (frame edited in place, evaluated again)", problems, widened=widened)
+                                if not same(snapshot(kind, again), snapshot(kind, fresh)):
+                                    problems.append(("rows", f"{what}: after the frame was edited in place the result differs from that of an equal new frame"))
+                            except Exception as e:
+                                problems.append(("derived-exists", f"{what}: re-evaluation after an in-place edit raised {type(e).__name__}: {e}"))
                         alive.append((p2, child, len(nd), snap))
                         nxt.append((p2, child))
                         # every earlier object must still satisfy the invariants and be unchanged
